@@ -17,7 +17,7 @@ ROOT = os.path.dirname(os.path.dirname(os.path.abspath(__file__)))
 REPO = os.environ.get("EFOOTPRINT_REPO", "/repo")
 SPEC_DIR = os.path.join(ROOT, "spec")
 WORK_ROOT = os.path.join(ROOT, ".work")
-EVIDENCE_DIR = os.path.join(ROOT, "evidence")
+EVIDENCE_DIR = os.environ.get("VERIF_EVIDENCE_DIR", os.path.join(ROOT, "evidence"))   # override: seed trials only
 KNOWN_FINDINGS = os.path.join(ROOT, "known_findings.json")
 GUARD = "EFOOTPRINT_VERIF"
 
